@@ -52,7 +52,13 @@ pub fn mkpool(v: Vec<RVal>) -> Arc<Vec<(RVal, Vec<u8>)>> {
 
 /// every editing call whose arguments are derived from `v`
 pub fn edit_calls(v: &RVal, o: &Opts) -> Vec<Call> {
-    let b: Arc<Vec<u8>> = Arc::new(enc(v));
+    edit_calls_from(v, o, enc(v))
+}
+
+/// the same calls with the document handed over in the given representation (its JSONB encoding,
+/// or a JSON text denoting it)
+pub fn edit_calls_from(v: &RVal, o: &Opts, doc: Vec<u8>) -> Vec<Call> {
+    let b: Arc<Vec<u8>> = Arc::new(doc);
     let mut out: Vec<Call> = vec![];
     let len = ops::array_length(v).unwrap_or(1) as i32;
     // concat
